@@ -9,6 +9,7 @@
 #include "iora/core/logger.hpp"
 #include "iora/parsers/json.hpp"
 #include <condition_variable>
+#include <cstdio>
 #include <fstream>
 #include <mutex>
 #include <set>
@@ -227,17 +228,36 @@ private:
   {
     try
     {
-      std::ofstream file(_filename);
-      if (file)
+      // Write a temporary file and rename it over the live one: opening the live
+      // file with truncation would leave it empty or partial if the process dies
+      // during the flush, and the next start would silently come up empty.
+      const std::string tempName = _filename + ".tmp";
+      bool written = false;
       {
-        std::string jsonData = _store.dump(2);
-        file << jsonData;
-        iora::core::Logger::debug("JsonFileStore: Wrote " + std::to_string(jsonData.length()) +
-                                  " bytes to " + _filename);
+        std::ofstream file(tempName, std::ios::trunc);
+        if (file)
+        {
+          std::string jsonData = _store.dump(2);
+          file << jsonData;
+          file.flush();
+          written = file.good();
+          if (written)
+          {
+            iora::core::Logger::debug("JsonFileStore: Wrote " + std::to_string(jsonData.length()) +
+                                      " bytes to " + tempName);
+          }
+        }
       }
-      else
+      if (!written)
       {
-        iora::core::Logger::error("JsonFileStore: Failed to open " + _filename + " for writing");
+        iora::core::Logger::error("JsonFileStore: Failed to write " + tempName);
+        std::remove(tempName.c_str());
+      }
+      else if (std::rename(tempName.c_str(), _filename.c_str()) != 0)
+      {
+        iora::core::Logger::error("JsonFileStore: Failed to rename " + tempName + " to " +
+                                  _filename);
+        std::remove(tempName.c_str());
       }
     }
     catch (const std::exception &e)
